@@ -7,6 +7,7 @@ import (
 	"fmt"
 	"go/token"
 	"go/types"
+	"strings"
 
 	"golang.org/x/tools/go/ssa"
 )
@@ -241,4 +242,66 @@ func ruleOptionalFields(c *Ctx, rule string) {
 		}
 	}
 	c.note("%s: %d dereferences of optional fields", rule, total)
+}
+
+// C18.R7 — pointers decoded from JSON may be null: in the custom decoders every pointer taken out of the decoded
+// configuration struct (pointer fields and elements of slices of pointers) is nil-tested before it is dereferenced
+// (a field access, a load, or a call of one of the module's pointer-receiver methods).
+func ruleDecodedPointers(c *Ctx, rule string) {
+	fn := c.MustFn(rule, fipPkg, "(*FloatingIPPool).UnmarshalJSON")
+	if fn == nil {
+		return
+	}
+	// the decoded struct: the Alloc passed to json.Unmarshal
+	var target *ssa.Alloc
+	for _, u := range calls(fn, "encoding/json.Unmarshal") {
+		if mi, ok := u.Common().Args[1].(*ssa.MakeInterface); ok {
+			if a, ok := mi.X.(*ssa.Alloc); ok {
+				target = a
+			}
+		}
+	}
+	if target == nil {
+		c.undecided(rule, fn, "decode target", nil, "json.Unmarshal target not found")
+		return
+	}
+	n := 0
+	allInstrs(fn, func(in ssa.Instruction) {
+		ld, ok := in.(*ssa.UnOp)
+		if !ok || ld.Op != token.MUL {
+			return
+		}
+		if _, isPtr := ld.Type().Underlying().(*types.Pointer); !isPtr {
+			return
+		}
+		// loaded from the target: field, or element of a slice field
+		base, path := cellPath(ld.X)
+		if ia, ok := ld.X.(*ssa.IndexAddr); ok {
+			// element of a slice loaded from a field of the target
+			if sl, ok := ia.X.(*ssa.UnOp); ok {
+				base, path = cellPath(sl.X)
+				path = append(path, "[]")
+			}
+		}
+		if base != ssa.Value(target) || len(path) == 0 {
+			return
+		}
+		same := func(x ssa.Value) bool { return x == ssa.Value(ld) || sameAccess(x, ld) }
+		guards := nonNilEdgesOf(fn, same)
+		uses := derefsOf(ld)
+		for _, ref := range *ld.Referrers() {
+			if call, ok := ref.(*ssa.Call); ok && !call.Call.IsInvoke() && len(call.Call.Args) > 0 && call.Call.Args[0] == ssa.Value(ld) {
+				if f := call.Call.StaticCallee(); f != nil && f.Signature.Recv() != nil && strings.HasPrefix(f.Pkg.Pkg.Path(), modPath) {
+					uses = append(uses, call)
+				}
+			}
+		}
+		for _, u := range uses {
+			n++
+			c.ob(rule, fn, "deref of decoded pointer ."+strings.Join(path, "."), u, guardedBy(fn, u, guards), "a JSON null leaves this pointer nil; its dereference must be reachable only through a non-nil test of the same access path")
+		}
+	})
+	if n == 0 {
+		c.undecided(rule, fn, "decoded pointers", nil, "no dereference of a pointer decoded from the configuration found")
+	}
 }
